@@ -308,7 +308,7 @@ def lit(v):
             return "infinite" if f > 0 else "(-infinite)"
         return "(%r)" % f if f < 0 or str(f).startswith("-") else repr(f)
     if t == "S":
-        return json.dumps(v[1].decode("utf-8"))
+        return json.dumps(v[1].decode("utf-8"), ensure_ascii=False)
     if t == "Y":
         return "([%s] | tobytes)" % ", ".join(str(b) for b in v[1])
     if t == "A":
